@@ -50,7 +50,7 @@ PROPS = {
                      "clauses instead: sea between 'groups whose top band is <= level' and 'groups whose bottom band is <= level' (whole "
                      "groups, every band at most once; TLC invariant SeaWithinBounds, record clause own_sea_within_bounds), CumDOS monotone / 0 "
                      "below / num_wann above, fder=n = n-th central difference of the code's own fder=0 result on the extended grid, "
-                     "k-resolved sum; required class: lowest level of the scan inside a group with a band strictly below it. select_bands with fder=0 is refused by the code "
+                     "k-resolved sum; required classes: lowest level of the scan inside a group with a band strictly below it; a group reaching up to the lowest level whose mean is >= 1.5 Fermi steps below it (threshold of several steps, run c13_in3). select_bands with fder=0 is refused by the code "
                      "(NotImplementedError) and not exercised; hole_like only flips the sign (no documented semantics) and is not "
                      "exercised; <= 4 bands when a band selection is used (weights are kept as integers/12). Kramers mode is exercised "
                      "on paired input with even and odd numbers of bands (odd: the highest band has no partner and forms or joins the last "
@@ -344,11 +344,16 @@ def inside_runs(thorough):
         return [("c13_in1", dict(NK=1, NBS="{2, 3, 4}", EMAX=2, THS="{1, 2}", QS="{4}", AS1=tlaset([4, 6, 9]), ASHIFT=3, DS="{2, 6}", NS="{3}",
                                  SELS="{{}}", WrongBinning="FALSE", InsideMode='"inside"'), 1500),
                 ("c13_in2", dict(NK=2, NBS="{2}", EMAX=2, THS="{1}", QS="{4}", AS1=tlaset([4, 6]), ASHIFT=3, DS="{2}", NS="{3}",
-                                 SELS="{{}}", WrongBinning="FALSE", InsideMode='"inside"'), 1000)]
+                                 SELS="{{}}", WrongBinning="FALSE", InsideMode='"inside"'), 1000),
+                ("c13_in3", dict(NK=1, NBS="{2, 3, 4}", EMAX=3, THS="{2, 3}", QS="{4}", AS1=tlaset([10, 12, 14, 16]), ASHIFT=3, DS="{2}", NS="{6, 8}",
+                                 SELS="{{}}", WrongBinning="FALSE", InsideMode='"inside"'), 1500)]
     return [("c13_in1", dict(NK=1, NBS="{2, 3}", EMAX=2, THS="{1, 2}", QS="{4}", AS1=tlaset([4, 6]), ASHIFT=3, DS="{2}", NS="{3}",
                              SELS="{{}}", WrongBinning="FALSE", InsideMode='"inside"'), 260),
             ("c13_in2", dict(NK=2, NBS="{2}", EMAX=1, THS="{1}", QS="{4}", AS1=tlaset([4]), ASHIFT=3, DS="{2}", NS="{3}",
-                             SELS="{{}}", WrongBinning="FALSE", InsideMode='"inside"'), 140)]
+                             SELS="{{}}", WrongBinning="FALSE", InsideMode='"inside"'), 140),
+            # threshold 3 units = 6 Fermi steps of 1/2 unit, six levels: a group 0..3 straddles the lowest level with its mean 1.5 .. 2.5 steps below
+            ("c13_in3", dict(NK=1, NBS="{2, 3}", EMAX=3, THS="{3}", QS="{4}", AS1=tlaset([12, 14, 16]), ASHIFT=3, DS="{2}", NS="{6}",
+                             SELS="{{}}", WrongBinning="FALSE", InsideMode='"inside"'), 200)]
 
 
 def sea_bounds(E, V, th, kr, grid, ext, upper):
@@ -447,6 +452,7 @@ def replay_inside(rep, s, cls):
     cls["kramers"] += kr
     cls["lowest_level_inside_group"] += bool(s["lowin"])
     cls["lowest_level_inside_group_sea"] += bool(s["lowin"]) and fder == 0
+    cls["group_mean_more_than_one_step_below_lowest_level"] += bool(s["farbelow"])
     cls["top_level_above_all_bands"] += (grid["a"] + (grid["n"] - 1 + ex) * grid["d"]) > max(max(e) for e in E) * grid["Q"]
     return inputs
 
@@ -496,7 +502,8 @@ def part_model(rep, thorough, rng):
     rep.part("c13_replay_classes", **cls)
     # inputs with a level inside a group: representation-free clauses
     icls = {k: 0 for k in ["states", "fder0", "fder1", "fder2", "fder3", "kres", "kramers", "real_CumDOS", "lowest_level_inside_group",
-                           "lowest_level_inside_group_sea", "top_level_above_all_bands"]}
+                           "lowest_level_inside_group_sea", "top_level_above_all_bands",
+                           "group_mean_more_than_one_step_below_lowest_level"]}
     for name, consts, nreplay in iruns:
         st = res[name]
         ftable.spec_violation(rep, st, name)
@@ -506,7 +513,7 @@ def part_model(rep, thorough, rng):
             raise MachineryError(f"the dump of {name} has no finished state / states without a level inside a group")
         done.sort(key=lambda s: repr((s["E"], s["vmode"], s["th"], s["kr"], sorted(s["grid"].items()), s["fder"], s["kres"])))
         rng.shuffle(done)
-        done.sort(key=lambda s: not (s["lowin"] and s["fder"] == 0))       # the sea with the lowest level inside a group first (stable)
+        done.sort(key=lambda s: (not s["farbelow"], not (s["lowin"] and s["fder"] == 0)))    # far-below means, then the sea with the lowest level inside a group first (stable)
         chosen = done[:nreplay]
         for i, s in enumerate(chosen):
             inputs = replay_inside(rep, s, icls)
@@ -540,7 +547,7 @@ def integral(x):
 def part_records(rep, thorough, rng):
     recs = []
     nrec = 1500 if thorough else 180
-    stats = dict(inside_group=0, lowest_level_inside_group_sea=0, kramers=0, kramers_odd=0, select=0, fder0=0, fder3=0, nonadditive=0, single_level=0, wide_group=0)
+    stats = dict(inside_group=0, lowest_level_inside_group_sea=0, group_mean_more_than_one_step_below_lowest_level=0, kramers=0, kramers_odd=0, select=0, fder0=0, fder3=0, nonadditive=0, single_level=0, wide_group=0)
     tries = 0
     nonint = 0
     while len(recs) < nrec:
@@ -584,10 +591,20 @@ def part_records(rep, thorough, rng):
                 Ek[j + 1:] = [x - Ek[j + 1] + Ek[j] + rng.randint(1, th) for x in Ek[j + 1:]]
             if 0 < Ek[j + 1] - Ek[j] <= th:
                 grid["a"] = Q * Ek[j] + rng.randint(1, Q * (Ek[j + 1] - Ek[j])) + EXTRA[fder] * grid["d"]
+        if not single and nb >= 2 and not kr and rng.random() < 0.2:
+            # targeted class: threshold of 6 Fermi steps, a pair 3 units apart straddles the lowest level, its mean >= 1.5 steps below it
+            th = 3
+            Ek = E[rng.randrange(nk)]
+            j = rng.randrange(nb - 1)
+            Ek[j + 1:] = [x - Ek[j + 1] + Ek[j] + 3 for x in Ek[j + 1:]]
+            Q = grid["Q"] = rng.choice([2, 4, 8])
+            grid["d"] = Q // 2
+            grid["n"] = rng.randint(6, 12)
+            grid["a"] = Q * Ek[j] + 3 * Q - rng.randint(0, (3 * Q) // 4) + EXTRA[fder] * grid["d"]
         # named exclusion NoTie; levels inside a group are kept as the class `inside` (both checked again by TLC: clause admissible)
         ex = EXTRA[fder]
         lv = [Fraction(grid["a"] + (i - ex) * grid["d"], Q) for i in range(grid["n"] + 2 * ex)]
-        tie = wide = inside = lowin = False
+        tie = wide = inside = lowin = farbelow = False
         for Ek in E:
             for a, b in py_borders(Ek, th, kr):
                 if Fraction(sum(Ek[a:b]), b - a) in lv:
@@ -596,6 +613,8 @@ def part_records(rep, thorough, rng):
                     inside = True
                 if Ek[a] < lv[0] <= Ek[b - 1]:
                     lowin = True
+                if b - a > 1 and Ek[b - 1] >= lv[0] and Fraction(sum(Ek[a:b]), b - a) <= lv[0] - Fraction(3 * grid["d"], 2 * Q):
+                    farbelow = True
                 wide = wide or Ek[b - 1] > Ek[a]
         if tie:
             continue
@@ -637,6 +656,7 @@ def part_records(rep, thorough, rng):
                          outK=outs[True], outU=outs[False][0], inside=inside, seaK=seaK))
         stats["inside_group"] += inside
         stats["lowest_level_inside_group_sea"] += lowin and sel is None
+        stats["group_mean_more_than_one_step_below_lowest_level"] += farbelow and sel is None
         stats["kramers"] += kr
         stats["kramers_odd"] += kr and nb % 2 == 1
         stats["select"] += sel is not None
